@@ -44,7 +44,11 @@ LEVEL_TEXT = (
     "C09_remove_spec (exact), C09_fuel_enough; C09_session_no_hidden_state: a session (any sequence of cd / mkdir / upload / "
     "remove on one client) is the fold of the single operations over (server-side cwd, remote tree), each operation's effect "
     "being the documented function of that pair and its arguments whatever preceded it. C09_source_obligations ties the model's upload form and the path plumbing "
-    "to client.py (regenerated each run; the pre-fix form of upload computes false and any third form fails closed). "
+    "to client.py (regenerated each run; the pre-fix form of upload computes false and any third form fails closed; the "
+    "worklists of the recursive lister and of upload are created without a bound: lister_queue_unbounded, upload_queue_unbounded). "
+    "C09_list_worklist_any_length: from any number of pending directories the lister returns every entry below the current and "
+    "below every pending directory exactly once (nothing queued is dropped); C09_list_every_width: the directory with n "
+    "sub-directories is listed completely (2n entries) for every n. "
     "C09_hist_* are historical statements about the pre-fix upload (what a revert would do). The model is hand-written; "
     "its tie to the code is a bounded-exhaustive wire-level correspondence (all tree shapes to depth 3 / fan-out 2 x "
     "destinations x write_into x cwd, MLSD and LIST-fallback servers, memory and disk backends on both sides)."
@@ -1161,6 +1165,13 @@ def correspondence(ctx):
         "before the download the LOCAL destination is fresh or already holds an older copy of the same shape whose files are "
         "strictly longer / shorter / of equal length / empty / mixed (plus a bystander entry) compared with the remote ones. "
         "A case is non-trivial when its (shape, naming, configuration) is distinct. "
+        "WIDTH (directories pending at once in the breadth-first walks): besides the narrow shapes (at most 4 pending), deterministic "
+        "wide trees -- W300 (a directory with 300 sub-directories each holding a file, an empty directory and a file next to "
+        "them: 301 pending) and G20x20 (20 directories x 20 sub-directories each holding a file: 400 pending) -- are uploaded, "
+        "listed recursively, downloaded (fresh and over an older local copy) and removed against the MLSD server, and listed "
+        "recursively (relative from inside, absolute from outside) against the LIST-fallback server, where they are planted on the "
+        "server because every stat() there is a LIST of the parent directory (thorough: W1100, G34x34, G6x70 and all four "
+        "operations on W300 / G20x20 against the LIST-fallback server and on disk backends). "
         "SESSIONS: sequences of operations on ONE client (cd w | cd / | upload foo->x | upload foo->x/y write_into | "
         "mkdir x/y | remove x | upload foo->''): six named scenarios (same relative destination from two directories, "
         "create-remove-create, mkdir twice) x 3 sources x 2 servers, and every sequence of length 3 over the 7 operations "
